@@ -473,7 +473,44 @@ func c02Stress(r *Run, round int) {
 				}
 			}(w)
 		}
-		wg.Wait()
+		// Wait for the writers, but not blindly: if they stop making progress because the maintenance
+		// goroutine is spinning inside the policy while holding its lock (two dumps apart), that is a
+		// violation of its own (writes can never drain again), reported with the policy's sizes.
+		phaseDone := make(chan struct{})
+		go func() { wg.Wait(); close(phaseDone) }()
+		stuck := false
+		for last, idle := int64(-1), 0; !stuck; {
+			select {
+			case <-phaseDone:
+			case <-time.After(500 * time.Millisecond):
+				if o := opsDone.Load(); o != last {
+					last, idle = o, 0
+					continue
+				}
+				if idle++; idle < 10 {
+					continue
+				}
+				gs := stableDump(300 * time.Millisecond)
+				for _, g := range gs {
+					if (g.State == "runnable" || g.State == "running") && g.has(").drainWrite(") {
+						peek := st.VerifPolicyPeekUnlocked()
+						r.Violate("maintenance-does-not-terminate/"+g.topTheineFrame(),
+							fmt.Sprintf("stress round %d (MaxSize %d, %d writers): no write has completed for 5 s; the maintenance goroutine is running inside %s with the policy lock held in two dumps 300 ms apart; policy sizes read without the lock: %v", round, M, nw, g.topTheineFrame(), peek),
+							map[string]any{"round": round, "maxsize": M, "writers": nw, "keys": nkeys, "policy": peek})
+						stuck = true
+					}
+				}
+				if !stuck {
+					idle = 0
+				}
+				continue
+			}
+			break
+		}
+		if stuck {
+			r.Eval(1)
+			return // the cache is dead; its goroutines are left behind
+		}
 		c.Wait()
 		if ph == 1 {
 			// jump across the short deadlines and run the tick body
